@@ -8,8 +8,8 @@
 #include <sys/mman.h>
 
 static const char *const CNT[] = { "states", "transitions", "replayed_calls", "fixpoint_reached", "depth_cap_hit", "ev_DOFACT", "ev_SamePattern", "ev_SameRowPerm", "ev_FACTORED",
-    "rowperm_reused", "rowperm_abandoned", "singular_transitions", "dofact_differential_checked", "samepattern_equals_dofact", "samepattern_differs_dofact", "expansions_during_reuse", "sum_of_max_depths", "workspace_configs", NULL };
-enum { C_STATES, C_TRANS, C_CALLS, C_FIX, C_CAP, C_EV0, C_EV1, C_EV2, C_EV3, C_REUSED, C_ABAND, C_SING, C_DIFF, C_SPEQ, C_SPNE, C_EXPR, C_MAXD, C_WS };
+    "rowperm_reused", "rowperm_abandoned", "singular_transitions", "dofact_differential_checked", "samepattern_equals_dofact", "samepattern_differs_dofact", "expansions_during_reuse", "sum_of_max_depths", "workspace_configs", "ilu_transitions", "symmetric_mode_configs", "zero_threshold_configs", "row_storage_configs", "transitions_failing_with_recorded_finding", NULL };
+enum { C_STATES, C_TRANS, C_CALLS, C_FIX, C_CAP, C_EV0, C_EV1, C_EV2, C_EV3, C_REUSED, C_ABAND, C_SING, C_DIFF, C_SPEQ, C_SPNE, C_EXPR, C_MAXD, C_WS, C_ILU, C_SYMC, C_U0, C_NRC, C_KNOWNEDGE };
 static const char *const RAT[] = { "residual_over_allowance", "lu_identity_over_allowance", NULL };
 
 #define NV 5
@@ -17,7 +17,7 @@ static const char *const RAT[] = { "residual_over_allowance", "lu_identity_over_
 #define MAXD 8
 #define MAXSTATES 4096
 
-typedef struct { xs s; const vcase *c; dmat Aun; int cur_v; int ok; int last_fact; unsigned char *ws; dmat V[NV]; int have_v3; } sess;
+typedef struct { xs s; const vcase *c; dmat Aun; int cur_v; int ok; int last_fact; long fact_info; unsigned char *ws; dmat V[NV]; int have_v3; } sess;
 
 static unsigned char *g_arena = NULL;
 static unsigned char *arena(void) { if (!g_arena) { g_arena = mmap(NULL, 1 << 20, PROT_READ | PROT_WRITE, MAP_PRIVATE | MAP_ANONYMOUS, -1, 0); memset(g_arena, 0xA5, 1 << 20); } return g_arena; }
@@ -40,14 +40,14 @@ static void set_values(sess *S, int v)
 {
     /* overwrite the stored values of A (pattern unchanged) */
     const vf_type *T = S->s.T; vf_sparse *sp = &S->s.S;
-    for (int j = 0; j < sp->n; j++) for (int_t k = sp->ptr[j]; k < sp->ptr[j + 1]; k++) { int i = (int)sp->ind[k]; T->st(sp->nzval, k, (double _Complex)DM(&S->V[v], i, j)); }
+    for (int j = 0; j < sp->n; j++) for (int_t k = sp->ptr[j]; k < sp->ptr[j + 1]; k++) { int i = (int)sp->ind[k]; T->st(sp->nzval, k, (double _Complex)(S->s.stor ? DM(&S->V[v], j, i) : DM(&S->V[v], i, j))); }
     sp_to_dense(sp, &S->Aun); S->cur_v = v;
 }
 static void sess_open(sess *S, const vcase *c)
 {
     memset(S, 0, sizeof *S); S->c = c;
     const vf_type *T = vf_T(c->type);
-    xs_init(&S->s, T, c->n, c->pat, c->vals, 0);
+    xs_init(&S->s, T, c->n, c->pat, c->vals, c->stor); S->s.ilu = (c->aux2 == 1);
     build_values(S);
     if (c->lworkmode == 1) { S->ws = arena(); S->s.work = S->ws; S->s.lwork = 1 << 20; }
     memset(&S->s.Glu, 0, sizeof S->s.Glu);
@@ -98,7 +98,8 @@ static int apply(sess *S, int ev, int judge, vres *r, uint64_t *dofact_ref)
         set_values(S, v);
     }
     cc.trans = trans; cc.fact = kind; cc.equil = c->equil;
-    xs_options(&cc, &opt, s);
+    if (s->ilu) { xs_ilu_options(&cc, 0, &opt); opt.Fact = (fact_t[]){ DOFACT, SamePattern, SamePattern_SameRowPerm, FACTORED }[kind]; opt.SymmetricMode = c->sym ? YES : NO; }
+    else xs_options(&cc, &opt, s);
     xs_current_A(s, &A_in);
     make_rhs(T, &S->Aun, trans, (ev + c->rhs) % 5 == 2 ? 0 : (ev + c->rhs) % 5, 1, &B);
     xs_set_rhs(s, &B, 0, 0); dn_to_dense(&s->B, &B_in);
@@ -107,14 +108,24 @@ static int apply(sess *S, int ev, int judge, vres *r, uint64_t *dofact_ref)
     WK_ADD(C_CALLS, 1);
     dn_to_dense(&s->B, &B_after);
     long info = s->info;
-    if (kind != 3) { S->ok = (info == 0); S->last_fact = kind; }
+    if (kind != 3) { S->ok = s->ilu ? (info >= 0 && info <= n + 1) : (info == 0); S->last_fact = kind; S->fact_info = info; }
     if (!judge) return 0;
     WK_COUNT(C_EV0 + kind);
+    if (s->ilu) {
+        /* incomplete-LU session: every call judged like a fresh xgsisx call (C15's judge): structure (stored counts included), non-zero finite diagonal,
+           scaling identities, X = the solve defined by the returned factors, complete-LU identity when dropping is off and no pivot was replaced */
+        ilu_stats st; WK_COUNT(C_ILU);
+        if (o_ilu(s, trans, kind == 3 ? 2 : c->equil, &A_in, &B_in, &B_after, ilu_nodrop(c->k) && S->fact_info == 0, opt.ConditionNumber == YES, r, &st)) return 1;
+        WK_RATIO(0, st.ratio_solve); if (st.exact) WK_RATIO(1, st.ratio_id);
+        if (kind == 2) { if (!memcmp(rp_before, s->perm_r, sizeof(int) * n)) WK_COUNT(C_REUSED); else WK_COUNT(C_ABAND); }
+        goto differential;
+    }
     if (info < 0 || info > n) return wk_fail(r, "unexpected-info", "info=%ld", info);
     if (info > 0) {
         WK_COUNT(C_SING);
         if (kind == 3) return wk_fail(r, "factored-solve-info", "Fact=FACTORED returned info=%ld", info);
-        if (ref_numerically_singular(&S->Aun) == 0 && !(v == 3)) return wk_fail(r, "spurious-singular", "info=%ld although the matrix of this call is comfortably nonsingular", info);
+        /* with DiagPivotThresh = 0 tiny diagonal pivots are accepted and a column can cancel to zero numerically: no promise to judge */
+        if (ref_numerically_singular(&S->Aun) == 0 && !(v == 3) && c->u > 0) return wk_fail(r, "spurious-singular", "info=%ld although the matrix of this call is comfortably nonsingular", info);
         return 0;         /* genuinely (near-)singular values: C04's business */
     }
     /* scaling identities (equed must stay what it was for FACTORED) */
@@ -122,6 +133,7 @@ static int apply(sess *S, int ev, int judge, vres *r, uint64_t *dofact_ref)
     /* factors: structure + identity + multiplier bound with respect to THIS call's (equilibrated) matrix */
     {
         dmat A1, Ld, Ud; verdict vd; memset(&vd, 0, sizeof vd); xs_current_A(s, &A1);
+        if (s->stor) { dmat F; transpose_dm(&A1, &F); A1 = F; }        /* row storage: the transpose is what gets factored */
         if (check_LU_structure(T, &s->L, &s->U, n, n, 0, &vd)) return wk_fail(r, "structure", "%s", vd.msg);
         if (!is_perm(s->perm_r, n) || !is_perm(s->perm_c, n)) return wk_fail(r, "perm-not-bijection", "perm_r/perm_c not a bijection");
         if (expand_L(T, &s->L, &Ld) || expand_U(T, &s->L, &s->U, &Ud)) return wk_fail(r, "structure", "cannot expand factors");
@@ -143,6 +155,7 @@ static int apply(sess *S, int ev, int judge, vres *r, uint64_t *dofact_ref)
         }
         WK_RATIO(0, ratio);
     }
+differential:
     /* differential: DOFACT(v) after any history == DOFACT(v) from the initial state */
     if (kind == 0 && dofact_ref) {
         uint64_t h = hash_LU(T, &s->L, &s->U); h = fnv(h, s->perm_r, sizeof(int) * n); h = fnv(h, s->perm_c, sizeof(int) * n);
@@ -170,6 +183,7 @@ static void run_C06(const vcase *c, vres *r)
 {
     if (pat_struct_rank(c->n, c->n, c->pat) < c->n) { r->status = 2; return; }
     if (c->lworkmode == 1) WK_COUNT(C_WS);
+    if (c->sym) WK_COUNT(C_SYMC); if (c->u == 0.0) WK_COUNT(C_U0); if (c->stor) WK_COUNT(C_NRC);
     uint64_t dofact_ref[NV] = {0};
     if (c->aux3 == 1) {
         /* replay of one recorded history: every transition judged */
@@ -179,7 +193,7 @@ static void run_C06(const vcase *c, vres *r)
     }
     static node st[MAXSTATES]; int ns = 0, head = 0, maxd = 0;
     st[ns].h = 0xdeadbeef; st[ns].len = 0; ns++;
-    int capped = 0;
+    int capped = 0, have_known = 0; vres known_fail;
     while (head < ns) {
         node cur = st[head++];
         for (int ev = 0; ev < NEV; ev++) {
@@ -193,9 +207,13 @@ static void run_C06(const vcase *c, vres *r)
             WK_COUNT(C_TRANS);
             if (bad) {
                 unsigned char h2[MAXD + 1]; memcpy(h2, cur.hist, cur.len); h2[cur.len] = (unsigned char)ev; char hs[220]; hist_str(h2, cur.len + 1, hs, sizeof hs);
-                *r = rr; char m0[300]; snprintf(m0, sizeof m0, "%s", rr.msg);
-                snprintf(r->msg, sizeof r->msg, "history [%s] (replay: aux3=1 lwork=%ld): %s", hs, hist_encode(h2, cur.len + 1), m0);
-                sess_close(&S); return;
+                char m0[300]; snprintf(m0, sizeof m0, "%s", rr.msg);
+                snprintf(rr.msg, sizeof rr.msg, "history [%s] (replay: aux3=1 lwork=%ld): %s", hs, hist_encode(h2, cur.len + 1), m0);
+                sess_close(&S);
+                /* a transition that fails with the signature of a recorded finding is remembered (and reported if nothing else fails) but does not end
+                   the search: the state behind it is not expanded, everything else still is */
+                if (wk_sig_known(rr.sig)) { if (!have_known) { known_fail = rr; have_known = 1; } WK_COUNT(C_KNOWNEDGE); continue; }
+                *r = rr; return;
             }
             uint64_t h2 = sess_hash(&S); sess_close(&S);
             int known = 0; for (int k = 0; k < ns; k++) if (st[k].h == h2) { known = 1; break; }
@@ -210,25 +228,63 @@ static void run_C06(const vcase *c, vres *r)
     WK_ADD(C_STATES, ns); if (capped) WK_COUNT(C_CAP); else WK_COUNT(C_FIX);
     WK_ADD(C_MAXD, maxd);
     r->nontrivial = ns > 3; r->outcome = (uint64_t)ns * 1000003u + (uint64_t)maxd;
+    if (have_known) { int nt = r->nontrivial; uint64_t oc = r->outcome; *r = known_fail; r->nontrivial = nt; r->outcome = oc; r->status = 1; }
 }
 
 /* configurations */
 static const int TUNE_H[] = { 3, 5, 9, 0 };
 static const int VALS_H[] = { 2, 1, 7 };
+static const int ORD_H[8][2] = { { 3, 0 }, { 0, 0 }, { 2, 1 }, { 0, 1 }, { 1, 0 }, { 2, 0 }, { 3, 1 }, { 1, 1 } };   /* (ColPerm, SymmetricMode) */
+static const int U_H[] = { 0, 1, 4 };                         /* DiagPivotThresh 1, 0.1, 0 */
+static const int ILU_H[] = { -1, 0, 8, 23, 197 };            /* xgssvx | xgsisx: NODROP; BASIC tol .5; BASIC|AREA tol 1e-4 fill 1; BASIC tol .5 SMILU_2 */
 static void set06(const int *d, vcase *c)
 {
     static const int BASES6[] = { 2, 7, 8, 1, 5, 3 };   /* arrow-last, grid, irregular, tridiagonal, bidiagonal+row, arrow-first */
-    c->n = c->m = 6; c->pat = dev1_pattern(6, base_pattern(6, BASES6[d[0]]), d[1]); c->type = d[2]; set_tune(c, TUNE_H[d[3]]); c->colperm = (int[]){ 3, 0, 1, 2 }[d[4]];
-    c->equil = d[5]; c->refine = d[6]; c->lworkmode = d[7]; c->vals = VALS_H[d[8]]; c->u = U_LIST[d[9]]; c->tune[6] = 1; c->fest = 1; c->rhs = 0; c->trans = 0; c->permid = -1;
+    c->n = c->m = 6; c->pat = dev1_pattern(6, base_pattern(6, BASES6[d[0]]), d[1]); c->type = d[2]; set_tune(c, TUNE_H[d[3]]); c->colperm = ORD_H[d[4]][0]; c->sym = ORD_H[d[4]][1];
+    c->equil = d[5]; c->refine = d[6]; c->lworkmode = d[7]; c->vals = VALS_H[d[8]]; c->u = U_LIST[U_H[d[9]]]; c->tune[6] = 1; c->fest = 1; c->rhs = 0; c->trans = 0; c->permid = -1;
+    c->stor = 0; c->aux2 = 0;
 }
-static const family F06Q[] = { { "BASE6{arrow,grid,irregular} x dev{0,1,2} x {d,z} x tune{(2,1,2..),(3,1,4..)} x {COLAMD,NATURAL} x Equil2 x refine2 x {library allocation fill 1, ample workspace} x vals{V2} x u{1,.1}: full reachability per configuration", 10, { 3, 3, 2, 2, 2, 2, 2, 2, 1, 2 }, set06 } };
-static const int TYPEMAP_Q[] = { TD, TZ };
-static void set06q(const int *d, vcase *c) { int e[10]; memcpy(e, d, sizeof e); e[2] = TYPEMAP_Q[d[2]]; set06(e, c); }
-static const family F06Qm[] = { { "BASE6 x6 x dev{0..4} x type4 x tune3 x {COLAMD,NATURAL} x Equil2 x refine2 x {library allocation fill 1, ample workspace} x vals{V2,V1} x u{1,.1}: full reachability per configuration", 10, { 6, 5, 4, 3, 2, 2, 2, 2, 2, 2 }, set06 } };
-static const family F06T[] = { { "BASE6 x6 x dev{0..12} x type4 x tune4 x colperm4 x Equil2 x refine2 x storage2 x vals3 x u{1,.1}: full reachability per configuration", 10, { 6, 13, 4, 4, 4, 2, 2, 2, 3, 2 }, set06 } };
-static long sz_06(int tier) { return tier ? fam_total(F06T, 1) : fam_total(F06Qm, 1); }
-static void dec_06(int tier, long idx, vcase *c) { if (tier) fam_decode(F06T, 1, idx, c); else fam_decode(F06Qm, 1, idx, c); }
-static void desc_06(int tier, char *b, size_t cap) { if (tier) fam_describe(F06T, 1, b, cap); else fam_describe(F06Qm, 1, b, cap); }
+static void set06i(const int *d, vcase *c)   /* incomplete-LU sessions: base dev type tune ord equil ws ilu-config */
+{
+    int e[10] = { d[0], d[1], d[2], d[3], d[4], d[5], 0, d[6], 0, 1 }; set06(e, c); if (d[3] == 1) set_tune(c, 0), c->tune[6] = 1;
+    c->aux2 = 1; c->k = ILU_H[1 + d[7]];
+}
+static void set06r(const int *d, vcase *c)   /* row-storage sessions (the transpose is factored): base dev type ord equil refine u */
+{
+    int e[10] = { d[0], d[1], d[2], 0, d[3], d[4], d[5], 0, 0, d[6] }; set06(e, c); c->stor = 1;
+}
+static void set06o(const int *d, vcase *c)   /* vendor-BLAS build: reduced product */
+{
+    int e[10] = { d[0], d[1], d[2], d[3], d[4], d[5], d[6], d[7], 0, d[8] }; set06(e, c);
+}
+static const family F06Qm[] = {
+    { "xgssvx: BASE6 x6 x dev{0..4} x type4 x tune3 x {COLAMD,NATURAL,MMD_AT+A sym,NATURAL sym} x Equil2 x refine2 x {library allocation fill 1, ample workspace} x vals{V2} x u{1,.1,0}: full reachability per configuration", 10, { 6, 5, 4, 3, 4, 2, 2, 2, 1, 3 }, set06 },
+    { "xgsisx: BASE6 x6 x dev{0,1,2} x type4 x tune{(2,1,2..),default} x {COLAMD,NATURAL} x Equil2 x storage2 x {NODROP, BASIC tol .5, BASIC|AREA fill 1}", 8, { 6, 3, 4, 2, 2, 2, 2, 3 }, set06i },
+    { "xgssvx on row storage: BASE6 x6 x dev{0,1,2} x type4 x {COLAMD,NATURAL} x Equil2 x refine2 x u{1,.1}", 7, { 6, 3, 4, 2, 2, 2, 2 }, set06r },
+};
+static const family F06Qo[] = {
+    { "xgssvx: BASE6 x6 x dev{0,1,2} x type4 x tune{(2,1,2..),(3,1,4..)} x {COLAMD,NATURAL,MMD_AT+A sym,NATURAL sym} x Equil2 x refine2 x storage2 x vals{V2} x u{1,0}", 9, { 6, 3, 4, 2, 4, 2, 2, 2, 2 }, set06o },
+    { "xgsisx: BASE6 x6 x dev{0,1} x type4 x tune{(2,1,2..),default} x {COLAMD,NATURAL} x Equil2 x storage2 x {NODROP, BASIC tol .5, BASIC|AREA fill 1}", 8, { 6, 2, 4, 2, 2, 2, 2, 3 }, set06i },
+};
+static const family F06T[] = {
+    { "xgssvx: BASE6 x6 x dev{0..8} x type4 x tune4 x (colperm4 x sym2) x Equil2 x refine2 x storage2 x vals3 x u{1,.1,0}: full reachability per configuration", 10, { 6, 9, 4, 4, 8, 2, 2, 2, 3, 3 }, set06 },
+    { "xgsisx: BASE6 x6 x dev{0..8} x type4 x tune{(2,1,2..),default} x (colperm4 x sym2) x Equil2 x storage2 x {NODROP, BASIC tol .5, BASIC|AREA fill 1, BASIC tol .5 SMILU_2}", 8, { 6, 9, 4, 2, 8, 2, 2, 4 }, set06i },
+    { "xgssvx on row storage: BASE6 x6 x dev{0..8} x type4 x (colperm4 x sym2) x Equil2 x refine2 x u{1,.1,0}", 7, { 6, 9, 4, 8, 2, 2, 3 }, set06r },
+};
+static const family F06To[] = {
+    { "xgssvx: BASE6 x6 x dev{0..4} x type4 x tune3 x {COLAMD,NATURAL,MMD_AT+A sym,NATURAL sym} x Equil2 x refine2 x storage2 x vals{V2,V1} x u{1,.1,0}", 10, { 6, 5, 4, 3, 4, 2, 2, 2, 2, 3 }, set06 },
+    { "xgsisx: BASE6 x6 x dev{0..4} x type4 x tune2 x {COLAMD,NATURAL,MMD_AT+A sym,NATURAL sym} x Equil2 x storage2 x ilu4", 8, { 6, 5, 4, 2, 4, 2, 2, 4 }, set06i },
+};
+#define NF_(F) ((int)(sizeof F / sizeof *F))
+static const family *pick06(int tier, int *nf)
+{
+    int ref = !strcmp(wk_variant, "ref");
+    if (tier) { if (ref) { *nf = NF_(F06T); return F06T; } *nf = NF_(F06To); return F06To; }
+    if (ref) { *nf = NF_(F06Qm); return F06Qm; } *nf = NF_(F06Qo); return F06Qo;
+}
+static long sz_06(int tier) { int nf; const family *f = pick06(tier, &nf); return fam_total(f, nf); }
+static void dec_06(int tier, long idx, vcase *c) { int nf; const family *f = pick06(tier, &nf); fam_decode(f, nf, idx, c); }
+static void desc_06(int tier, char *b, size_t cap) { int nf; const family *f = pick06(tier, &nf); fam_describe(f, nf, b, cap); }
 
 static const char RULE06[] = "one case = one configuration; for it the state graph of the real xgssvx session (state = hash of A values, perm_c, perm_r, etree, equed, R, C, L, U, storage capacities) is explored breadth-first over the 18-event alphabet {DOFACT, SamePattern, SamePattern_SameRowPerm} x 5 value relations + FACTORED x {N,T,C} until no new state appears (depth cap 8); every transition executes the implementation and is judged; non-trivial = more than 3 reachable states";
 const vf_check vf_checks[] = { { "C06", sz_06, dec_06, run_C06, CNT, RAT, RULE06, desc_06 } };
